@@ -13,7 +13,13 @@ use std::cmp::Reverse;
 use std::collections::{BTreeMap, BinaryHeap, HashSet};
 use std::net::SocketAddr;
 use std::sync::Arc;
-use std::time::{Duration, Instant};
+use std::time::Duration;
+#[cfg(not(feature = "verif-hooks"))]
+use std::time::Instant;
+
+// with the verification hooks the node's timers read tokio's clock, which a test harness can pause
+#[cfg(feature = "verif-hooks")]
+use tokio::time::Instant;
 
 use log::{debug, trace, warn};
 use wincode::{SchemaRead, SchemaWrite};
